@@ -73,13 +73,13 @@ func (c *CriteriaMixing) Apply(
 	}
 	parsedProps := parseProps(props)
 	generator := c.generatorSource(parsedProps.RandomSeed)
-	c2m := selectCriteriaToMix(original, generator)
-	allAlternatives := original.AllAlternatives()
+	c2m := selectCriteriaToMix(current, generator)
+	allAlternatives := current.AllAlternatives()
 	referenceCriterionProvider := c.referenceCriteriaManager.ForParams(props)
-	referenceCriterion := referenceCriterion(original, listener, referenceCriterionProvider)
+	referenceCriterion := referenceCriterion(current, listener, referenceCriterionProvider)
 	targetValRange := model.ValuesRangeWithGroundZero(&allAlternatives, referenceCriterion)
 	mixResult := c2m.mix(&allAlternatives, targetValRange, parsedProps)
-	newCriterion := c2m.criterion(targetValRange)
+	newCriterion := c2m.criterion(&current.Criteria, targetValRange)
 	criterionParams := (*listener).OnCriterionAdded(&newCriterion, referenceCriterion, current.MethodParameters, generator)
 	newMethodParams := (*listener).Merge(current.MethodParameters, criterionParams)
 	newAlternatives := updateAlternatives(allAlternatives, newCriterion, mixResult)
@@ -177,9 +177,9 @@ func (c *criteriaToMix) mix(
 	}
 }
 
-func (c *criteriaToMix) criterion(valRange *utils.ValueRange) model.Criterion {
+func (c *criteriaToMix) criterion(existing *model.Criteria, valRange *utils.ValueRange) model.Criterion {
 	return model.Criterion{
-		Id:          "__" + c.c1.Id + "+" + c.c2.Id + "__",
+		Id:          existing.NotUsedName("__" + c.c1.Id + "+" + c.c2.Id + "__"),
 		Type:        model.Gain,
 		ValuesRange: valRange,
 	}
